@@ -6,6 +6,11 @@ pub struct Timeouts { pub _p: u8 }
 impl Timeouts {
     #[verifier::external_body]
     pub fn pdu(&self) -> (r: LabeledTimeout) { unimplemented!() }
+    #[verifier::external_body]
+    pub fn state_transition(&self) -> (r: LabeledTimeout) { unimplemented!() }
+    /// the pause between two polls (src/timer_factory.rs)
+    #[verifier::external_body]
+    pub async fn loop_tick(&self) { unimplemented!() }
 }
 pub struct RetryBehaviour { pub _p: u8 }
 impl RetryBehaviour {
